@@ -117,8 +117,68 @@ def run(run):
                 ph = np.asarray(kl.polang(ra), float)
                 if ph.shape != (nr, 5) or not np.allclose(ph, (np.arange(5) / 5 * 2 * np.pi)[None, :] * np.ones((nr, 1)), rtol=0, atol=1e-14):
                     run.violation("polang:azimuth-replicated-over-radius", dict(nr=nr, got=ph.tolist()), c)
+    # ---- the discrete half of gkl_fcom (spec/KLSelect.tla): abstract eigenvalue ranks -> crafted kernels whose eigenvalues ARE those
+    #      ranks (diagonal kernels for orders >= 1; P diag(mu, .) P^T with P = piston_orth for order 0), real gkl_fcom, compare labels
+    r3 = run.tlc("KLSelect", "KLSelect.cfg", require_actions=("Place", "OrderStep", "Select", "DupStep", "Label"), timeout=2400)
+    if r3.violated:
+        raise core.MachineryError("KLSelect.tla violates its own invariant %s" % r3.violated)
+    cases = r3.printed
+    rng = np.random.default_rng(run.seed)
+    if len(cases) > 6000:
+        cases = [cases[i] for i in rng.permutation(len(cases))[:6000]]
+    ri = 0.25
+    with np.errstate(all="ignore"):
+        for c in cases:
+            nr, nfunc, cols = c["nr"], c["nfunc"], c["cols"]
+            nt = len(cols)
+            kinds["klselect"] = kinds.get("klselect", 0) + 1
+            run.traces += 1
+            if kinds["klselect"] == 7:
+                run.sample(c, limit=12)
+            kers = np.zeros((nr, nr, nt))
+            P = np.asarray(kl.piston_orth(nr), float)
+            mu = np.array([float(x) for x in cols[0][:nr - 1]] + [0.5])
+            kers[:, :, 0] = P.dot(np.diag(mu)).dot(P.T)
+            perm = {}
+            for t in range(1, nt):
+                pr = rng.permutation(nr)
+                perm[t] = pr
+                kers[:, :, t] = np.diag(np.array(cols[t], float)[pr])
+            keep = kers.copy()
+            try:
+                evals, nord, npo, oord, rabas = kl.gkl_fcom(ri, kers, nfunc)
+            except Exception as ex:  # noqa
+                run.violation("gkl_fcom:raises", dict(error=repr(ex)[:160]), c)
+                continue
+            fk = (1.0 - ri ** 2) / nr
+            bad = None
+            if not np.allclose(np.asarray(evals, float) / fk, np.array(c["evals"], float), rtol=1e-9, atol=1e-9):
+                bad = "gkl_fcom:selected-eigenvalues"
+            elif [int(x) for x in oord] != c["oord"] or int(nord) != c["nord"] or [int(x) for x in npo] != c["npo"]:
+                bad = "gkl_fcom:azimuthal-labels"
+            elif not np.array_equal(kers, keep):
+                bad = "gkl_fcom:kernels-argument-modified"
+            else:
+                rb = np.asarray(rabas, float)
+                for i in range(nfunc):
+                    t, k = c["tord"][i], c["pio"][i]
+                    col = rb[:, i]
+                    if t >= 1:
+                        # the eigenvector of a diagonal kernel is +-e_j at the diagonal position that holds this eigenvalue, times sqrt(2 nr)
+                        j0 = int(np.where(perm[t] == k)[0][0])
+                        want = np.zeros(nr)
+                        want[j0] = np.sqrt(2 * nr)
+                        if not np.allclose(np.abs(col), want, rtol=0, atol=1e-9):
+                            bad = "gkl_fcom:radial-function-of-wrong-eigenvalue"
+                            break
+                    elif abs(col.sum()) > 1e-9 * np.sqrt(nr) * nr:
+                        bad = "gkl_fcom:zeroth-order-function-not-piston-free"
+                        break
+            if bad:
+                run.violation(bad, dict(nr=nr, nfunc=nfunc, cols=cols, got=dict(evals=(np.asarray(evals) / fk).tolist(), oord=[int(x) for x in oord],
+                                                                                 nord=int(nord), npo=[int(x) for x in npo])), c)
     run.aux["cases_by_kind"] = kinds
-    run.bounds = dict(cfg="Growth.cfg", kl_cfg="GrowthKL.cfg")
+    run.bounds = dict(cfg="Growth.cfg", kl_cfg="GrowthKL.cfg", klselect_cfg="KLSelect.cfg", klselect_cases_replayed=len(cases))
     run.assumptions.append("specification growth beyond the listed properties; not a claimed check")
 
 
